@@ -26,12 +26,14 @@ KEYCODES = {
 }
 VALCODES = {
     'I': dict(ext=[-2**31, 2**31 - 1, 0], mid=[7, 9, 11]),
-    'L': dict(ext=[-2**63, 2**63 - 1, 0], mid=[7, 9, 11]),
+    # (mid: values that differ only above bit 31 - a comparison or copy narrowed to 32 bits would not tell them apart)
+    'L': dict(ext=[-2**63, 2**63 - 1, 0], mid=[7, 7 + 2**32, 7 + 2**33]),
     'U': dict(ext=[0, 2**32 - 1, 5], mid=[7, 9, 11]),
-    'Q': dict(ext=[0, 2**64 - 1, 5], mid=[7, 9, 11]),
+    'Q': dict(ext=[0, 2**64 - 1, 5], mid=[7, 7 + 2**32, 7 + 2**63]),
     'F': dict(ext=[-0.5, 1.5, 2.0 ** 127], mid=[0.5, 1.5, 2.25]),
     'O': dict(ext=[None, ('y', 1), 'x'], mid=['x', 'y', 'z']),
-    's': dict(ext=[b'\x00' * 6, b'\xff' * 6, b'abcdef'], mid=[b'aaaaaa', b'bbbbbb', b'cccccc']),
+    # (mid: strings that share their first bytes)
+    's': dict(ext=[b'\x00' * 6, b'\xff' * 6, b'abcdef'], mid=[b'aaaaaa', b'aaaaab', b'aabbbb']),
 }
 
 FAMILIES = ['OO', 'OI', 'OL', 'OU', 'OQ', 'IO', 'II', 'IF', 'IU', 'LO', 'LL', 'LF', 'LQ',
